@@ -5,7 +5,7 @@ from luagen import Prog
 
 FAILS = ["arith_nil", "concat_nil", "cmp_mixed", "call_nil", "index_nil", "unm_str", "error1", "error2", "error_tab", "method_nil", "callfield_nil"]
 PLACES = ["local", "assign", "assign_field", "callarg", "return", "if_cond", "elseif_cond", "while_cond", "repeat_cond",
-          "fornum_bound", "forin_exp", "table_item", "index_key", "andor", "nested_call"]
+          "fornum_bound", "forin_exp", "table_item", "index_key", "andor", "nested_call", "forin_iter", "forin_iter2"]
 
 
 def _fail_expr(p, kind):
@@ -89,6 +89,17 @@ def line_case(rng, fail, place, npre):
         body.append(p.fornum("i", p.num(1), e(), 0, p.block([p.emit([p.id("i")])])))
     elif place == "forin_exp":
         body.append(p.forin(["k", "v"], [p.call(p.id("pairs"), [e()])], p.block([p.emit([p.id("k")])])))
+    elif place in ("forin_iter", "forin_iter2"):
+        # the failure happens in the ITERATOR CALL the loop makes (first call / second call), the loop body spans lines
+        if fail == "call_nil":
+            it = p.id("nilv") if place == "forin_iter" else p.func(["s", "c"], p.block([p.ret([p.num(1)])]))
+            loop = p.forin(["k", "v"], [it] + ([] if place == "forin_iter" else [p.nil(), p.nil()]), p.block([p.emit([p.str("body"), p.id("k")]), p.assign([p.id("gq")], [p.id("nilv")]), p.callstat(p.call(p.id("gq"), []))]))
+        else:
+            first = [] if place == "forin_iter" else [p.if_([p.bin("==", p.id("c"), p.nil())], [p.block([p.ret([p.num(1)])])])]
+            thrower = p.func(["s", "c"], p.block(first + ([p.callstat(p.call(p.id("error"), [p.str("E2"), p.num(2)]))] if fail == "error2" else [p.ret([e()])])))
+            body.append(p.local(["iterf"], [thrower]))
+            loop = p.forin(["k", "v"], [p.id("iterf")], p.block([p.emit([p.str("body"), p.id("k")]), p.local(["pad"], [p.num(0)]), p.emit([p.id("pad")])]))
+        body.append(loop)
     elif place == "table_item":
         body.append(p.local(["tt"], [p.table([("p", p.num(1)), ("p", e()), ("k", p.add("str", s=[122], name=True), p.num(3))])]))
     elif place == "index_key":
@@ -265,6 +276,11 @@ def info_case(rng):
         ss.append(p.callstat(p.call(p.id("fn%d" % i), [])))
         ss.append(p.local(["fi"], [p.call(_dbg(p, "getinfo"), [p.id("fn%d" % i), p.str("S")])]))
         ss.append(p.emit([p.str("of%d" % i), p.field(p.id("fi"), "linedefined"), p.field(p.id("fi"), "lastlinedefined")]))
+    # the line of the loop statement as seen from the iterator it calls (generic for) and from a __lt handler of its bounds
+    ss.append(p.localfunction("liter", p.func(["s", "c"], p.block([p.emit([p.str("iter-sees"), p.field(p.call(_dbg(p, "getinfo"), [p.num(2), p.str("l")]), "currentline")]),
+                                                                   p.if_([p.bin("<", p.or_(p.id("c"), p.num(0)), p.num(2))], [p.block([p.ret([p.bin("+", p.or_(p.id("c"), p.num(0)), p.num(1))])])]),
+                                                                   p.ret([p.nil()])]))))
+    ss.append(p.forin(["k"], [p.id("liter")], p.block([p.emit([p.str("in-loop"), p.id("k")]), p.local(["zz"], [p.id("k")]), p.emit([p.id("zz")])])))
     ss.append(p.emit([p.str("main"), p.field(p.call(_dbg(p, "getinfo"), [p.num(1), p.str("l")]), "currentline")]))
     return p, p.block(ss)
 
